@@ -154,6 +154,17 @@ def ops_from_js(js):
     return [op_from_js(d) for d in js]
 
 
+def rebase_ops(ops, path):
+    """recorded histories carry the options record of the file they were recorded on; the implementation
+    writes the *current* path into that record, so rewrite it (same length by construction of data_path)."""
+    out = []
+    for o in ops:
+        if o.get('op') == 40 and 'json' in o:
+            o = dict(o, json=options_json(path, o['metric'], o['dim'], o['q']))
+        out.append(o)
+    return out
+
+
 def options_json(path, metric, dim, q):
     return ('{"name":%s,"distance_method":%d,"dimension_count":%d,"quantization":%d}'
             % (json.dumps(path), metric, dim, q)).encode()
@@ -304,7 +315,8 @@ def gen_sf_history(rng, nops, big=False):
 def data_path(tag):
     d = os.path.join(WORK, 'data')
     os.makedirs(d, exist_ok=True)
-    return os.path.join(d, 'c%s_%d.dat' % (tag, os.getpid()))
+    # fixed-length name: the path is part of the options record, so its length decides the file layout
+    return os.path.join(d, 'c%s_%05d.dat' % (tag, os.getpid() % 100000))
 
 
 def run_both(ops, path):
